@@ -204,7 +204,9 @@ fn gen_pattern(rng: &mut Rng, depth: usize, ngroups: &mut usize) -> String {
         0 => "a".into(),
         1 => "b".into(),
         2 => "[ab]".into(),
-        3 => ["\\b", "^", "$", "", "c"][rng.below(5)].into(),
+        // since 0cdcce3 the printer searches a line as a haystack of its own, so the absolute anchors (and the
+        // line anchors with (?-m)) are part of the stream: they hold at the start / end of every line
+        3 => ["\\b", "^", "$", "", "c", "\\A", "\\z", "(?-m:^)", "(?-m:$)", "\\B"][rng.below(10)].into(),
         4 => ".".into(),
         5 | 6 => {
             *ngroups += 1;
@@ -222,6 +224,19 @@ fn gen_pattern(rng: &mut Rng, depth: usize, ngroups: &mut usize) -> String {
         9 => format!("(?:{})*", gen_pattern(rng, depth - 1, ngroups)),
         10 => format!("(?:{})?", gen_pattern(rng, depth - 1, ngroups)),
         _ => format!("(?:{})+", gen_pattern(rng, depth - 1, ngroups)),
+    }
+}
+
+/// Under --crlf the SEARCHER judges a line with its `\r` still attached (it strips only the `\n`), so `\B` holds
+/// between that `\r` and the end and the line is reported although its content has no match. That is C01's recorded
+/// finding (class `crlf-cr-unmatchable` there: which lines are reported), not the printer's: the printer then finds no
+/// match in the content and prints the line as it is. This property's streams take the set of reported lines as
+/// given, so `\B` is generated only without --crlf.
+fn no_not_word_boundary_under_crlf(pat: String, crlf: bool) -> String {
+    if crlf {
+        pat.replace("\\B", "\\b")
+    } else {
+        pat
     }
 }
 
@@ -247,20 +262,44 @@ fn l2_case(rng: &mut Rng, malformed: bool) -> String {
     let pat = gen_pattern(rng, 3, &mut ng);
     let tmpl = gen_template(rng, malformed);
     let crlf = rng.chance(1, 4);
+    let pat = no_not_word_boundary_under_crlf(pat, crlf);
     let input = gen_input(rng, crlf);
     let only = rng.chance(1, 4);
     // per-match records (--vimgrep) and prelude fields (-n, --column)
     let per_match = rng.chance(1, 4);
     let prelude = rng.chance(1, 2);
+    // --null-data: NUL-terminated lines, which may contain `\n` (where `^` / `$` still match and `.` does not)
+    let nul = !crlf && rng.chance(1, 6);
+    // Under --null-data a pattern with haystack anchors sends the SEARCHER down its fast path, where the anchors see
+    // the buffer instead of the line (`printf 'ab\0cd\0ab' | rg -a --null-data -c 'b\z'` counts 1): which lines
+    // are reported is C01's business (witness handed to its check), so this stream uses the line anchors there.
+    let pat = if nul {
+        pat.replace("\\A", "^").replace("\\z", "$").replace("(?-m:^)", "^").replace("(?-m:$)", "$")
+    } else {
+        pat
+    };
+    let input = if nul {
+        let mut v: Vec<u8> = input.iter().map(|&b| if b == b'\n' { 0 } else { b }).collect();
+        for _ in 0..rng.below(3) {
+            if !v.is_empty() {
+                let at = rng.below(v.len() + 1);
+                v.insert(at, b'\n');
+            }
+        }
+        v
+    } else {
+        input
+    };
     format!(
-        "l2 {} {} {} crlf={} o={} pm={} pre={}",
+        "l2 {} {} {} crlf={} o={} pm={} pre={}{}",
         hex(pat.as_bytes()),
         hex(&tmpl),
         hex(&input),
         crlf as u8,
         only as u8,
         per_match as u8,
-        prelude as u8
+        prelude as u8,
+        if nul { " nul=1" } else { "" }
     )
 }
 
@@ -272,11 +311,12 @@ struct L2 {
     only: bool,
     per_match: bool,
     prelude: bool,
+    nul: bool,
 }
 
 fn parse_l2(parts: &[&str]) -> Option<L2> {
     // older corpus lines have no pm= / pre= fields
-    if parts.len() != 6 && parts.len() != 8 {
+    if parts.len() != 6 && parts.len() != 8 && parts.len() != 9 {
         return None;
     }
     Some(L2 {
@@ -287,15 +327,20 @@ fn parse_l2(parts: &[&str]) -> Option<L2> {
         only: parts[5] == "o=1",
         per_match: parts.get(6).map_or(false, |p| *p == "pm=1"),
         prelude: parts.get(7).map_or(false, |p| *p == "pre=1"),
+        nul: parts.get(8).map_or(false, |p| *p == "nul=1"),
     })
 }
 
 /// lines with their terminators
 fn split_lines(input: &[u8]) -> Vec<&[u8]> {
+    split_lines_at(input, b'\n')
+}
+
+fn split_lines_at(input: &[u8], tb: u8) -> Vec<&[u8]> {
     let mut out = vec![];
     let mut s = 0;
     for (i, &b) in input.iter().enumerate() {
-        if b == b'\n' {
+        if b == tb {
             out.push(&input[s..=i]);
             s = i + 1;
         }
@@ -381,7 +426,19 @@ fn spec_replace(re: &regex::bytes::Regex, content: &[u8], tmpl: &[u8]) -> (Vec<u
 
 fn run_l2(case: &str, c: &L2, drv: &mut Driver, rep: &mut Report) {
     rep.eval();
-    let matcher = match RegexMatcherBuilder::new().multi_line(true).crlf(c.crlf).build(&c.pat) {
+    // the terminator byte: `\n`, or NUL for --null-data (the regex keeps `\n` as ITS line terminator there: grep-regex
+    // does not hand NUL to the regex, so `^` / `$` match around `\n` inside a NUL-terminated line, for rg and for the
+    // reference alike)
+    let tb: u8 = if c.nul { 0 } else { b'\n' };
+    // as rg builds it: under --null-data the matcher is told the NUL terminator (the searcher then judges every line
+    // on its own in the slow path; without it the fast path would search the buffer, where `$` does not hold before a
+    // NUL — the recorded C02/C01 class `nul-terminator-lf-anchored-matcher`, not this property's business)
+    let mut mb = RegexMatcherBuilder::new();
+    mb.multi_line(true).crlf(c.crlf);
+    if c.nul {
+        mb.line_terminator(Some(0));
+    }
+    let matcher = match mb.build(&c.pat) {
         Ok(m) => m,
         Err(_) => {
             rep.branch("l2:pattern-rejected");
@@ -407,7 +464,7 @@ fn run_l2(case: &str, c: &L2, drv: &mut Driver, rep: &mut Report) {
         .line_terminator(if c.crlf {
             grep_matcher::LineTerminator::crlf()
         } else {
-            grep_matcher::LineTerminator::byte(b'\n')
+            grep_matcher::LineTerminator::byte(tb)
         })
         .build();
     if searcher.search_slice(&matcher, &c.input, printer.sink(&matcher)).is_err() {
@@ -423,22 +480,23 @@ fn run_l2(case: &str, c: &L2, drv: &mut Driver, rep: &mut Report) {
             names.push((n.to_string(), i));
         }
     }
-    let lt = if c.crlf { "crlf" } else { "lf" };
-    let term_out: &[u8] = if c.crlf { b"\r\n" } else { b"\n" };
+    let lt = if c.crlf { "crlf" } else if c.nul { "nul" } else { "lf" };
+    let term_out: &[u8] = if c.crlf { b"\r\n" } else if c.nul { b"\0" } else { b"\n" };
     let mut model_out = vec![];
     let mut spec_out = vec![];
     let mut any_match = false;
     let mut any_nonmatch = false;
     let mut ls = 0usize;
-    for (idx, line) in split_lines(&c.input).into_iter().enumerate() {
+    for (idx, line) in split_lines_at(&c.input, tb).into_iter().enumerate() {
         let ln = idx + 1;
         let le = ls + line.len();
         let line_start = ls;
         ls = le;
         // model: where the haystack is cut is the model's business (the printer is handed the whole
         // buffer and the line's range in it)
-        let e: usize = drv.ask(&format!("c19.trim {} {} {}", lt, hex(&c.input), le)).parse().unwrap_or(usize::MAX);
-        if e > le {
+        let e: usize =
+            drv.ask(&format!("c19.trim {} {} {} {}", lt, hex(&c.input), line_start, le)).parse().unwrap_or(usize::MAX);
+        if e > le || e < line_start {
             rep.violation(Violation {
                 kind: "impl_vs_model".into(),
                 class: "".into(),
@@ -448,10 +506,11 @@ fn run_l2(case: &str, c: &L2, drv: &mut Driver, rep: &mut Report) {
             });
             return;
         }
-        let hay = &c.input[..e];
+        // since 0cdcce3 the line's content is the haystack, searched from 0
+        let hay = &c.input[line_start..e];
         // content as the property defines it
         let mut content = line;
-        if content.last() == Some(&b'\n') {
+        if content.last() == Some(&tb) {
             content = &content[..content.len() - 1];
             if c.crlf && content.last() == Some(&b'\r') {
                 content = &content[..content.len() - 1];
@@ -466,7 +525,7 @@ fn run_l2(case: &str, c: &L2, drv: &mut Driver, rep: &mut Report) {
             rep.branch("l2:crlf-mode-bare-lf-line");
         }
         let term_in: &[u8] = &line[content.len()..];
-        let (table, sane) = caps_sx(&matcher, hay, line_start);
+        let (table, sane) = caps_sx(&matcher, hay, 0);
         if !sane {
             rep.violation(Violation {
                 kind: "impl_vs_model".into(),
@@ -511,7 +570,7 @@ fn run_l2(case: &str, c: &L2, drv: &mut Driver, rep: &mut Report) {
                 spec_out.extend(prelude(c.prelude, ln, Some(s + 1)));
                 spec_out.extend_from_slice(&dst[*s..*e]);
                 // a record is terminated unless the expansion itself ends in the terminator byte
-                if dst[*s..*e].last() != Some(&b'\n') {
+                if dst[*s..*e].last() != Some(&tb) {
                     spec_out.extend_from_slice(term_out);
                 }
             }
@@ -530,7 +589,7 @@ fn run_l2(case: &str, c: &L2, drv: &mut Driver, rep: &mut Report) {
     let guard = drv.ask(&format!("c19.guard {}", hex(&c.tmpl)));
     rep.branch(if c.only { "l2:only-matching" } else if c.per_match { "l2:per-match" } else { "l2:whole-line" });
     rep.branch(if c.prelude { "l2:line-number+column" } else { "l2:no-prelude" });
-    rep.branch(if c.crlf { "l2:crlf" } else { "l2:lf" });
+    rep.branch(if c.crlf { "l2:crlf" } else if c.nul { "l2:nul" } else { "l2:lf" });
     if any_match && any_nonmatch && !c.tmpl.is_empty() {
         rep.nontrivial(case);
     }
@@ -679,7 +738,8 @@ fn run_l3(case: &str, parts: &[&str], drv: &mut Driver, rep: &mut Report) {
         rep.branch("l3:printer-panic");
         rep.violation(Violation {
             kind: "impl_vs_spec".into(),
-            class: "multiline-match-beyond-block".into(),
+            // the panic (F18) was repaired by 55c3d7e + 2e6bd1f: a panic now is a new violation, never a recorded one
+            class: "".into(),
             tie: "rg -U -r must print every reported block".into(),
             case: case.to_string(),
             detail: format!("pattern {:?} input {:?}: the printer panicked inside replace_all", pat, show(&input)),
@@ -749,7 +809,33 @@ fn run_l3(case: &str, parts: &[&str], drv: &mut Driver, rep: &mut Report) {
             k += 1;
             p = q;
         }
-        // a block whose every byte (terminator included) was matched and replaced by nothing prints nothing
+        // a block whose every byte (terminator included) was matched and replaced by nothing prints nothing.
+        // When the search really runs line by line (`-U` with a pattern that cannot match a terminator), every line
+        // is a record of its own: an unterminated last line whose whole content was replaced by nothing is still
+        // printed, as an empty line (the line rule of l2: replaced content, then the line's terminator, completed)
+        if !ml_eff && *e == input.len() && input.last() != Some(&b'\n') {
+            let ls = line_start(input.len());
+            let last_line_dst_empty = idxs.iter().any(|&i| ms[i].get(0).unwrap().start() >= ls) && {
+                let mut d = vec![];
+                let mut last = ls;
+                for &i in idxs {
+                    let m = ms[i].get(0).unwrap();
+                    if m.start() >= ls {
+                        d.extend_from_slice(&input[last..m.start()]);
+                        ms[i].expand(&tmpl, &mut d);
+                        last = m.end();
+                    }
+                }
+                d.extend_from_slice(&input[last..]);
+                d.is_empty()
+            };
+            if last_line_dst_empty {
+                if pre {
+                    spec_out.extend(format!("{}:", first_ln + k).into_bytes());
+                }
+                spec_out.extend_from_slice(term_out);
+            }
+        }
     }
     let guard = drv.ask(&format!("c19.guard {}", hex(&tmpl)));
     // The searcher's own iteration (find_at from the previous end, +1 after an empty match) accepts an empty
@@ -778,23 +864,20 @@ fn run_l3(case: &str, parts: &[&str], drv: &mut Driver, rep: &mut Report) {
     }
     if out != spec_out {
         // what the property leaves open in multi-line mode (stated in the rule): blocks whose replaced text
-        // changes the number of lines (line numbers of later lines of the block), and CRLF blocks (F19 family)
+        // changes the number of lines (line numbers of later lines of the block). (F19 — CRLF blocks — was repaired by
+        // b0493c8: every printed line keeps its own terminator, so a LF/CRLF difference is a new violation)
         let class = if guard == "0" {
             "braced-name-outside-capletters"
         } else if lookahead_sensitive || refound_beyond_block {
             "multiline-match-beyond-block"
         } else if empty_after_match {
             "multiline-empty-match-directly-after-a-match"
-        } else if crlf
-            && (spec_out.iter().enumerate().any(|(i, &b)| b == b'\n' && (i == 0 || spec_out[i - 1] != b'\r'))
-                || blocks.iter().any(|b| input[b.0..b.1].last() != Some(&b'\n')))
-        {
-            // F19 family (also a C09 class): under --crlf -U the slow multi-line printer writes each block line
-            // without its terminator and appends the configured CRLF
-            "crlf-multiline-bare-lf-terminator-rewritten"
         } else {
             ""
         };
+        if !class.is_empty() {
+            rep.branch(&format!("class:{}:attributed", class));
+        }
         rep.violation(Violation {
             kind: "impl_vs_spec".into(),
             class: class.into(),
@@ -1082,7 +1165,488 @@ fn l3_shadow_padded(
     l3_model_check(case, matcher, tmpl, &padded, crlf, true, &blocks, &out, panicked, drv, rep);
 }
 
-fn run_case(case: &str, drv: &mut Driver, rep: &mut Report) {
+// ---------------------------------------------------------------- L2c: context lines, inverted searches, passthru
+
+fn l2c_case(rng: &mut Rng, malformed: bool) -> String {
+    let mut ng = 0;
+    let pat = gen_pattern(rng, 3, &mut ng);
+    let tmpl = gen_template(rng, malformed);
+    let crlf = rng.chance(1, 4);
+    let pat = no_not_word_boundary_under_crlf(pat, crlf);
+    // more lines than l2, so that context windows, gaps between groups and adjacency all occur
+    let mut input = vec![];
+    for _ in 0..rng.range(1, 3) {
+        input.extend(gen_input(rng, crlf));
+        if input.last() != Some(&b'\n') && !input.is_empty() {
+            input.push(b'\n');
+        }
+    }
+    if rng.chance(1, 4) && input.last() == Some(&b'\n') {
+        input.pop();
+        if input.last() == Some(&b'\r') {
+            input.pop();
+        }
+    }
+    let invert = rng.chance(1, 2);
+    let passthru = rng.chance(1, 5);
+    let (b, a) = if passthru { (0, 0) } else { (rng.below(3), rng.below(3)) };
+    format!(
+        "l2c {} {} {} crlf={} o={} pm={} pre={} v={} B={} A={} pt={}",
+        hex(pat.as_bytes()),
+        hex(&tmpl),
+        hex(&input),
+        crlf as u8,
+        rng.chance(1, 5) as u8,
+        rng.chance(1, 5) as u8,
+        rng.chance(1, 2) as u8,
+        invert as u8,
+        b,
+        a,
+        passthru as u8
+    )
+}
+
+fn l4_case(rng: &mut Rng) -> String {
+    // valid UTF-8 templates only (the flag's value must be): draw until one is
+    let base = loop {
+        let c = l2c_case(rng, false);
+        let t = c.split(' ').nth(2).and_then(unhex).unwrap_or_default();
+        if std::str::from_utf8(&t).is_ok() {
+            break c;
+        }
+    };
+    format!("l4{} n={} col={} mm={}", &base[3..], rng.chance(1, 2) as u8, rng.chance(1, 2) as u8, rng.chance(1, 2) as u8)
+}
+
+/// remove `ESC [ … m` sequences
+fn strip_ansi(v: &[u8]) -> Vec<u8> {
+    let mut r = Vec::with_capacity(v.len());
+    let mut i = 0;
+    while i < v.len() {
+        if v[i] == 0x1b && v.get(i + 1) == Some(&b'[') {
+            let mut j = i + 2;
+            while j < v.len() && v[j] != b'm' {
+                j += 1;
+            }
+            i = j + 1;
+        } else {
+            r.push(v[i]);
+            i += 1;
+        }
+    }
+    r
+}
+
+/// prelude with the field separator of the record's kind (`:` match, `-` context)
+fn prelude_sep(on: (bool, bool), ln: usize, col: Option<usize>, sep: char) -> Vec<u8> {
+    let (ln_on, col_on) = on;
+    let mut v = vec![];
+    if ln_on {
+        v.extend(format!("{}{}", ln, sep).into_bytes());
+    }
+    if col_on {
+        if let Some(c) = col {
+            v.extend(format!("{}{}", c, sep).into_bytes());
+        }
+    }
+    v
+}
+
+/// `l2c`: the library printer behind the library searcher. `l4` (same fields plus `n= col= mm=`): the real `rg`
+/// binary with the corresponding flags on a file — the wiring from flags to searcher/printer configuration
+/// (crates/core/flags/hiargs.rs) is then part of what is compared.
+fn run_l2c(case: &str, parts: &[&str], drv: &mut Driver, rep: &mut Report, cli: Option<(&std::path::Path, &std::path::Path)>) {
+    let want = if cli.is_some() { 15 } else { 12 };
+    if parts.len() != want {
+        rep.notes.push(format!("unparsable case: {}", case));
+        return;
+    }
+    let tag = if cli.is_some() { "l4" } else { "l2c" };
+    let field = |i: usize, k: &str| -> Option<usize> { parts[i].strip_prefix(k)?.parse().ok() };
+    let (pat, tmpl, input) = match (unhex(parts[1]).and_then(|p| String::from_utf8(p).ok()), unhex(parts[2]), unhex(parts[3])) {
+        (Some(p), Some(t), Some(i)) => (p, t, i),
+        _ => {
+            rep.notes.push(format!("unparsable case: {}", case));
+            return;
+        }
+    };
+    let (crlf, only, per_match, pre, invert, before, after, passthru) = match (
+        field(4, "crlf="),
+        field(5, "o="),
+        field(6, "pm="),
+        field(7, "pre="),
+        field(8, "v="),
+        field(9, "B="),
+        field(10, "A="),
+        field(11, "pt="),
+    ) {
+        (Some(c), Some(o), Some(pm), Some(pr), Some(v), Some(b), Some(a), Some(pt)) => {
+            (c == 1, o == 1, pm == 1, pr == 1, v == 1, b, a, pt == 1)
+        }
+        _ => {
+            rep.notes.push(format!("unparsable case: {}", case));
+            return;
+        }
+    };
+    // which prelude fields are on: l2c ties both to `pre`; l4 has `-n/-N` and `--column` separately (and
+    // `--vimgrep` = per-match records with both)
+    let (ln_on, col_on, mmap) = if cli.is_some() {
+        match (field(12, "n="), field(13, "col="), field(14, "mm=")) {
+            (Some(n), Some(c), Some(m)) => (n == 1, c == 1, m == 1),
+            _ => {
+                rep.notes.push(format!("unparsable case: {}", case));
+                return;
+            }
+        }
+    } else {
+        (pre, pre, false)
+    };
+    let on = (ln_on, col_on);
+    rep.eval();
+    let matcher = match RegexMatcherBuilder::new().multi_line(true).crlf(crlf).build(&pat) {
+        Ok(m) => m,
+        Err(_) => {
+            rep.branch("l2c:pattern-rejected");
+            return;
+        }
+    };
+    let re = match regex::bytes::RegexBuilder::new(&pat).multi_line(true).crlf(crlf).build() {
+        Ok(r) => r,
+        Err(_) => {
+            rep.branch("l2c:regex-rejected");
+            return;
+        }
+    };
+    let mut printer = StandardBuilder::new()
+        .replacement(Some(tmpl.clone()))
+        .only_matching(only)
+        .per_match(per_match)
+        .column(col_on)
+        .build_no_color(vec![]);
+    let mut sb = SearcherBuilder::new();
+    sb.line_number(ln_on).invert_match(invert).line_terminator(if crlf {
+        grep_matcher::LineTerminator::crlf()
+    } else {
+        grep_matcher::LineTerminator::byte(b'\n')
+    });
+    if passthru {
+        sb.passthru(true);
+    } else {
+        sb.before_context(before).after_context(after);
+    }
+    let mut searcher = sb.build();
+    let out = if let Some((rg, scratch)) = cli {
+        // the real binary: flags -> LowArgs -> HiArgs -> searcher/printer builders
+        let tmpl_str = match std::str::from_utf8(&tmpl) {
+            Ok(t) if !t.contains('\0') => t.to_string(),
+            _ => {
+                rep.branch("l4:template-not-passable-as-argument");
+                return;
+            }
+        };
+        let _ = std::fs::create_dir_all(scratch);
+        let f = scratch.join("l4-input");
+        if std::fs::write(&f, &input).is_err() {
+            rep.notes.push("l4: cannot write the scratch file".into());
+            return;
+        }
+        let mut cmd = std::process::Command::new(rg);
+        cmd.arg("--no-config").arg("--color=never").arg("--no-heading").arg("-j1");
+        if per_match {
+            cmd.arg("--vimgrep");
+        }
+        cmd.arg(if ln_on { "-n" } else { "-N" });
+        cmd.arg(if col_on { "--column" } else { "--no-column" });
+        cmd.arg("--no-filename");
+        if only {
+            cmd.arg("-o");
+        }
+        if crlf {
+            cmd.arg("--crlf");
+        }
+        if invert {
+            cmd.arg("-v");
+        }
+        if passthru {
+            cmd.arg("--passthru");
+        } else {
+            if before > 0 {
+                cmd.arg(format!("-B{}", before));
+            }
+            if after > 0 {
+                cmd.arg(format!("-A{}", after));
+            }
+        }
+        cmd.arg(if mmap { "--mmap" } else { "--no-mmap" });
+        cmd.arg(format!("--replace={}", tmpl_str)).arg("-e").arg(&pat).arg(&f);
+        let o = match cmd.output() {
+            Ok(o) => o,
+            Err(e) => {
+                rep.notes.push(format!("l4: cannot run rg: {}", e));
+                return;
+            }
+        };
+        match o.status.code() {
+            Some(0) | Some(1) => {}
+            _ => {
+                // rg refused what the library accepted (or failed): counted, shown in the evidence, not compared
+                rep.branch("l4:rg-exit-2");
+                return;
+            }
+        }
+        rep.branch(if mmap { "l4:mmap" } else { "l4:no-mmap" });
+        o.stdout
+    } else {
+        if searcher.search_slice(&matcher, &input, printer.sink(&matcher)).is_err() {
+            rep.branch("l2c:search-error");
+            return;
+        }
+        printer.into_inner().into_inner()
+    };
+    // the colour paths (write_colored_line / write_colored_matches, which cut the terminator off and write it back)
+    // are not modelled; they are held to the plain output by a relation: with colours on, the output with the
+    // escape sequences removed is the plain output
+    if cli.is_none() {
+        let mut cprinter = StandardBuilder::new()
+            .replacement(Some(tmpl.clone()))
+            .only_matching(only)
+            .per_match(per_match)
+            .column(col_on)
+            .color_specs(grep_printer::ColorSpecs::default_with_color())
+            .build(termcolor::Ansi::new(vec![]));
+        let mut csearcher = sb.build();
+        if csearcher.search_slice(&matcher, &input, cprinter.sink(&matcher)).is_ok() {
+            let cout = strip_ansi(&cprinter.into_inner().into_inner());
+            rep.branch("l2c:colour-relation-checked");
+            if cout != out {
+                rep.violation(Violation {
+                    kind: "impl_vs_spec".into(),
+                    class: "".into(),
+                    tie: "rg -r --color=always with the escape sequences removed vs --color=never".into(),
+                    case: case.to_string(),
+                    detail: format!(
+                        "pattern {:?} template {:?} input {:?}: coloured (escapes removed) {:?}, plain {:?}",
+                        pat,
+                        show(&tmpl),
+                        show(&input),
+                        show(&cout),
+                        show(&out)
+                    ),
+                });
+            }
+        }
+    }
+
+    let mut names = vec![];
+    for n in NAMES.iter() {
+        if let Some(i) = matcher.capture_index(n) {
+            names.push((n.to_string(), i));
+        }
+    }
+    let lt = if crlf { "crlf" } else { "lf" };
+    let term_out: &[u8] = if crlf { b"\r\n" } else { b"\n" };
+    // the grep model of which lines are delivered and as what (C03's business; used here as the oracle of the
+    // callbacks the printer receives)
+    let lines = split_lines(&input);
+    let content_of = |line: &[u8]| -> usize {
+        let mut n = line.len();
+        if n > 0 && line[n - 1] == b'\n' {
+            n -= 1;
+            if crlf && n > 0 && line[n - 1] == b'\r' {
+                n -= 1;
+            }
+        }
+        n
+    };
+    let has_match: Vec<bool> = lines.iter().map(|l| re.is_match(&l[..content_of(l)])).collect();
+    let is_matched: Vec<bool> = has_match.iter().map(|&m| m != invert).collect();
+    let n = lines.len();
+    let mut printed = vec![false; n];
+    for i in 0..n {
+        if is_matched[i] {
+            printed[i] = true;
+            if !passthru {
+                for j in i.saturating_sub(before)..i {
+                    printed[j] = true;
+                }
+                for j in i + 1..=(i + after).min(n.saturating_sub(1)) {
+                    printed[j] = true;
+                }
+            }
+        }
+    }
+    if passthru {
+        printed.iter_mut().for_each(|p| *p = true);
+    }
+    let with_breaks = !passthru && (before > 0 || after > 0);
+    let mut model_out = vec![];
+    let mut spec_out = vec![];
+    let mut starts = vec![0usize; n + 1];
+    for i in 0..n {
+        starts[i + 1] = starts[i] + lines[i].len();
+    }
+    let mut last_printed: Option<usize> = None;
+    let (mut n_ctx_replaced, mut n_ctx_plain, mut n_matched_plain, mut n_matched_replaced) = (0, 0, 0, 0);
+    for i in 0..n {
+        if !printed[i] {
+            continue;
+        }
+        if with_breaks {
+            if let Some(lp) = last_printed {
+                if lp + 1 < i {
+                    model_out.extend_from_slice(b"--");
+                    model_out.extend_from_slice(term_out);
+                    spec_out.extend_from_slice(b"--");
+                    spec_out.extend_from_slice(term_out);
+                }
+            }
+        }
+        last_printed = Some(i);
+        let line = lines[i];
+        let ln = i + 1;
+        let (ls, le) = (starts[i], starts[i + 1]);
+        let kind_matched = is_matched[i];
+        let sep = if kind_matched { ':' } else { '-' };
+        let content = &line[..content_of(line)];
+        // ---- model: the printer's callback for this line
+        let reply = if !kind_matched && !invert {
+            n_ctx_plain += 1;
+            drv.ask(&format!(
+                "c19.sink {} {} {} 0 c {} {} {} {} {} (table)",
+                lt, only as u8, per_match as u8, hex(&input), ls, le, hex(&tmpl), names_sx(&names)
+            ))
+        } else if !kind_matched {
+            // context line of an inverted search: its own haystack
+            n_ctx_replaced += 1;
+            let e: usize = drv.ask(&format!("c19.trim {} {} 0 {}", lt, hex(line), line.len())).parse().unwrap_or(0);
+            let (table, sane) = caps_sx(&matcher, &line[..e.min(line.len())], 0);
+            if !sane {
+                rep.branch("l2c:insane-table");
+            }
+            drv.ask(&format!(
+                "c19.sink {} {} {} 1 c {} 0 {} {} {} {}",
+                lt, only as u8, per_match as u8, hex(line), line.len(), hex(&tmpl), names_sx(&names), table
+            ))
+        } else {
+            if invert {
+                n_matched_plain += 1;
+            } else {
+                n_matched_replaced += 1;
+            }
+            let e: usize = drv.ask(&format!("c19.trim {} {} {} {}", lt, hex(&input), ls, le)).parse().unwrap_or(0);
+            let (table, sane) = caps_sx(&matcher, &input[ls..e.clamp(ls, input.len())], 0);
+            if !sane {
+                rep.branch("l2c:insane-table");
+            }
+            drv.ask(&format!(
+                "c19.sink {} {} {} {} m {} {} {} {} {} {}",
+                lt, only as u8, per_match as u8, invert as u8, hex(&input), ls, le, hex(&tmpl), names_sx(&names), table
+            ))
+        };
+        for rec in reply.split(' ').filter(|r| !r.is_empty()) {
+            match rec.split_once(':') {
+                Some((col, text)) => {
+                    model_out.extend(prelude_sep(on, ln, col.parse().ok(), sep));
+                    model_out.extend(unhex(text).unwrap_or_else(|| b"<bad-op>".to_vec()));
+                }
+                None => model_out.extend_from_slice(b"<bad-op>"),
+            }
+        }
+        // ---- the property: every match in a printed line replaced, everything else (and every line without a
+        // match) as it is
+        let (dst, spans) = spec_replace(&re, content, &tmpl);
+        let term_in: &[u8] = &line[content.len()..];
+        let own_term: &[u8] = if term_in.is_empty() { term_out } else { term_in };
+        if spans.is_empty() {
+            spec_out.extend(prelude_sep(on, ln, None, sep));
+            spec_out.extend_from_slice(content);
+            spec_out.extend_from_slice(own_term);
+        } else if only {
+            for (s, e) in &spans {
+                spec_out.extend(prelude_sep(on, ln, Some(s + 1), sep));
+                spec_out.extend_from_slice(&dst[*s..*e]);
+                if dst[*s..*e].last() != Some(&b'\n') {
+                    spec_out.extend_from_slice(term_out);
+                }
+            }
+        } else if per_match {
+            for (s, _) in &spans {
+                spec_out.extend(prelude_sep(on, ln, Some(s + 1), sep));
+                spec_out.extend_from_slice(&dst);
+                spec_out.extend_from_slice(own_term);
+            }
+        } else {
+            spec_out.extend(prelude_sep(on, ln, spans.first().map(|x| x.0 + 1), sep));
+            spec_out.extend_from_slice(&dst);
+            spec_out.extend_from_slice(own_term);
+        }
+    }
+    rep.branch(&format!("{}:{}", tag, if invert { "inverted" } else { "not-inverted" }));
+    rep.branch(&format!("{}:{}", tag, if passthru { "passthru" } else if with_breaks { "context" } else { "no-context" }));
+    if n_ctx_replaced > 0 {
+        rep.branch("l2c:context-line-with-matches-replaced(-v)");
+    }
+    if n_ctx_plain > 0 {
+        rep.branch("l2c:context-line-as-is");
+    }
+    if n_matched_plain > 0 {
+        rep.branch("l2c:matched-line-of-inverted-search-as-is");
+    }
+    if n_matched_replaced > 0 {
+        rep.branch("l2c:matched-line-replaced");
+    }
+    if (n_ctx_replaced > 0 || n_matched_replaced > 0) && (n_ctx_plain > 0 || n_matched_plain > 0) && !tmpl.is_empty() {
+        rep.nontrivial(case);
+    }
+    let guard = drv.ask(&format!("c19.guard {}", hex(&tmpl)));
+    if out != model_out {
+        rep.violation(Violation {
+            kind: "impl_vs_model".into(),
+            class: "".into(),
+            tie: format!("{} vs Model.Replace.sinkLine (theorems C19_line, C19_no_match_unaltered)", if cli.is_some() { "the rg binary (flags -> HiArgs -> searcher + Standard printer with --replace)" } else { "Standard printer (matched + context callbacks) with replacement" }),
+            case: case.to_string(),
+            detail: format!(
+                "pattern {:?} template {:?} input {:?}: impl {:?} model {:?}",
+                pat,
+                show(&tmpl),
+                show(&input),
+                show(&out),
+                show(&model_out)
+            ),
+        });
+    }
+    if out != spec_out {
+        let class = if guard == "0" { "braced-name-outside-capletters" } else { "" };
+        if !class.is_empty() {
+            rep.branch(&format!("class:{}:attributed", class));
+        }
+        rep.violation(Violation {
+            kind: "impl_vs_spec".into(),
+            class: class.into(),
+            tie: format!("{} -r with context / -v / --passthru vs regex replace_all of each printed line", if cli.is_some() { "rg binary" } else { "library printer" }),
+            case: case.to_string(),
+            detail: format!(
+                "pattern {:?} template {:?} input {:?}: ripgrep prints {:?}, expected {:?}",
+                pat,
+                show(&tmpl),
+                show(&input),
+                show(&out),
+                show(&spec_out)
+            ),
+        });
+    }
+    if model_out != spec_out && guard == "1" {
+        rep.violation(Violation {
+            kind: "model_vs_spec".into(),
+            class: "".into(),
+            tie: "theorems C19_line / C19_no_match_unaltered contradicted".into(),
+            case: case.to_string(),
+            detail: format!("model {:?} spec {:?}", show(&model_out), show(&spec_out)),
+        });
+    }
+}
+
+fn run_case(case: &str, drv: &mut Driver, rep: &mut Report, cli: Option<(&std::path::Path, &std::path::Path)>) {
     let parts: Vec<&str> = case.split(' ').collect();
     match parts.first().copied() {
         Some("l1") => match parse_l1(&parts) {
@@ -1092,6 +1656,11 @@ fn run_case(case: &str, drv: &mut Driver, rep: &mut Report) {
         Some("l2") => match parse_l2(&parts) {
             Some(c) => run_l2(case, &c, drv, rep),
             None => rep.notes.push(format!("unparsable case: {}", case)),
+        },
+        Some("l2c") => run_l2c(case, &parts, drv, rep, None),
+        Some("l4") => match cli {
+            Some((rg, scratch)) => run_l2c(case, &parts, drv, rep, Some((rg, scratch))),
+            None => rep.branch("l4:skipped-no-rg-binary"),
         },
         Some("l3") => run_l3(case, &parts, drv, rep),
         _ => rep.notes.push(format!("unparsable case: {}", case)),
@@ -1108,23 +1677,35 @@ fn main() {
          Non-trivial: L1 expansion differs from the template; L2 input has both a matching and a non-matching line. \
          Distinct by case text.",
     );
+    let rg_path = args.rg.clone();
+    let scratch = args.scratch.clone();
+    let cli: Option<(&std::path::Path, &std::path::Path)> = rg_path.as_deref().map(|r| (r, scratch.as_path()));
     for c in corpus_cases(&args) {
-        run_case(&c, &mut drv, &mut rep);
+        run_case(&c, &mut drv, &mut rep, cli);
     }
     if args.replay.is_none() {
         let mut rng = Rng::new(args.seed);
         let n = args.cases.unwrap_or(if args.thorough { 60000 } else { 4000 });
         for i in 0..n {
             let malformed = i % 10 == 9;
-            let case = match i % 5 {
+            let case = match i % 6 {
                 0 | 2 => l1_case(&mut rng, malformed),
-                1 | 3 => l2_case(&mut rng, malformed),
+                1 => l2_case(&mut rng, malformed),
+                3 => l2c_case(&mut rng, malformed),
+                5 if i % 12 == 5 => l2_case(&mut rng, malformed),
+                5 => l2c_case(&mut rng, malformed),
                 _ => l3_case(&mut rng, malformed),
             };
             if i < 6 {
                 rep.sample(case.clone());
             }
-            run_case(&case, &mut drv, &mut rep);
+            run_case(&case, &mut drv, &mut rep, cli);
+            // every 8th case also goes through the real binary: the l2c case with separate -n / --column switches
+            // and a strategy switch
+            if i % 8 == 3 {
+                let c4 = l4_case(&mut rng);
+                run_case(&c4, &mut drv, &mut rep, cli);
+            }
         }
     }
     rep.write(&args);
